@@ -88,6 +88,7 @@ class Binary(Sub):
             for lbl, x, y in (("Duration,Duration", da, db), ("Duration,timedelta", da, b), ("timedelta,Duration", a, db)):
                 r = fn(x, y)
                 same(f"{nm}({lbl})", r, e, ctxd)
+                same(f"{nm}({lbl}) (second evaluation on the same objects)", fn(x, y), e, ctxd)
                 if lbl.startswith("Duration") or nm == "add":
                     rr = r[1] if nm == "divmod" else r
                     if nm in ("add", "sub", "mod", "divmod"):
@@ -112,6 +113,8 @@ class Binary(Sub):
                 raise Violation(f"{nm}: native timedelta overflows, Duration returns a value", got=repr(r), **ctxd)
             r = fn(da)
             same(nm, r, e, ctxd)
+            r_again = fn(da)      # an operator is a pure function of its operands: evaluating it again on the same object gives the same
+            same(nm + " (second evaluation on the same object)", r_again, e, ctxd)
             if nm == "neg":
                 req(type(r) is Duration, "negation does not return a Duration", got=type(r).__name__)
         return True, "big" if abs(a.total_seconds()) >= 2**31 or abs(b.total_seconds()) >= 2**31 else "normal"
